@@ -39,10 +39,18 @@ func (E *Engine) Encode(name string, level int) *FuncResult {
 	active, ok := E.candCache[key]
 	if !ok {
 		active = map[CandKey]bool{}
+		// candidates of lower facets: exactly the ones that survived at the lower level (their obligations are
+		// generated and checked there; assuming a dropped one here would be unsound)
+		if level > 0 {
+			E.Encode(name, level-1)
+			for k := range E.candCache[fmt.Sprintf("%s@%d", name, level-1)] {
+				active[k] = true
+			}
+		}
 		li := E.loops(fn)
 		for _, l := range li.loops {
 			for _, cd := range ct.LoopCand {
-				if (cd.Loop == 0 || cd.Loop == l.ord) && facetLevel[cd.Facet] <= level {
+				if (cd.Loop == 0 || cd.Loop == l.ord) && facetLevel[cd.Facet] == level {
 					active[CandKey{cd, l.ord}] = true
 				}
 			}
@@ -109,14 +117,20 @@ func (E *Engine) effectiveContract(name string) *Contract {
 	res := own
 	if fn != nil && fn.Signature.Recv() != nil {
 		recvT := fn.Signature.Recv().Type()
-		for key, ict := range E.S.Contracts {
+		var ikeys []string
+		for key := range E.S.Contracts {
+			ikeys = append(ikeys, key)
+		}
+		sort.Strings(ikeys)
+		for _, key := range ikeys {
+			ict := E.S.Contracts[key]
 			parts := strings.Split(key, ".")
 			if len(parts) != 3 || parts[2] != fn.Name() || ict.Extern {
 				continue
 			}
 			// is parts[0].parts[1] an interface type that recvT implements?
-			for _, sp := range E.P.SPkgs {
-				if sp == nil || shortPkg(sp.Pkg.Path()) != parts[0] {
+			for _, sp := range E.P.SSA.AllPackages() {
+				if sp == nil || sp.Pkg == nil || shortPkg(sp.Pkg.Path()) != parts[0] {
 					continue
 				}
 				obj := sp.Pkg.Scope().Lookup(parts[1])
@@ -133,9 +147,11 @@ func (E *Engine) effectiveContract(name string) *Contract {
 					cp := *res
 					merged = &cp
 				}
+				// clauses tagged "ghost" define ghost state in terms of the method's observable behaviour (true of every
+				// implementation by definition of the ghost); they are assumed at call sites and not imposed on implementers
 				merged.Requires = append(append([]*Clause{}, merged.Requires...), ict.Requires...)
-				merged.Ensures = append(append([]*Clause{}, merged.Ensures...), ict.Ensures...)
-				merged.Preserves = append(append([]*Clause{}, merged.Preserves...), ict.Preserves...)
+				merged.Ensures = append(append([]*Clause{}, merged.Ensures...), nonGhost(ict.Ensures)...)
+				merged.Preserves = append(append([]*Clause{}, merged.Preserves...), nonGhost(ict.Preserves)...)
 				// renumber for stable obligation names
 				for i, c := range merged.Ensures {
 					cc := *c
@@ -239,10 +255,10 @@ func (E *Engine) encodeOnce(name string, level int, cands map[CandKey]bool) (res
 			}
 		}
 		// vacuity guard: the precondition must be satisfiable
-		if level == 0 && (len(ct.Requires) > 0 || len(ct.Preserves) > 0) {
+		if len(ct.Requires) > 0 || len(ct.Preserves) > 0 {
 			o := enc.Oblige(name, "cover", "requires", True, fr.pos(fn.Pos()))
 			o.Expect = "sat"
-			o.Facet = "S"
+			o.Facet = levelNames[level]
 		}
 	}
 	exit, results, exitReach := fr.run(entry, True)
@@ -288,10 +304,10 @@ func (E *Engine) encodeOnce(name string, level int, cands map[CandKey]bool) (res
 			}
 		}
 		// reachability canary: the exit must be reachable (otherwise everything above is vacuous)
-		if level == 0 && exitReach != False {
+		if exitReach != False {
 			o := enc.Oblige(name, "cover", "exit", exitReach, fr.pos(fn.Pos()))
 			o.Expect = "sat"
-			o.Facet = "S"
+			o.Facet = levelNames[level]
 		}
 	}
 	res.Obls = enc.Obls
@@ -299,7 +315,7 @@ func (E *Engine) encodeOnce(name string, level int, cands map[CandKey]bool) (res
 	if level > 0 {
 		var keep []*Obligation
 		for _, o := range enc.Obls {
-			if facetLevel[o.Facet] == level && o.Kind != "cover" {
+			if facetLevel[o.Facet] == level {
 				keep = append(keep, o)
 			}
 		}
@@ -342,3 +358,22 @@ func shortFile(p token.Position) string {
 
 // houdiniTimeout bounds each candidate-invariant query (seconds).
 var houdiniTimeout = 10
+
+func nonGhost(cs []*Clause) []*Clause {
+	var out []*Clause
+	for _, c := range cs {
+		if !hasTag(c, "ghost") {
+			out = append(out, c)
+		}
+	}
+	return out
+}
+
+func hasTag(c *Clause, tag string) bool {
+	for _, t := range c.Tags {
+		if t == tag {
+			return true
+		}
+	}
+	return false
+}
